@@ -71,6 +71,90 @@ def conversion(model, b, fi, res):
                             line=getattr(vals[nm].origin[1], 'lineno', 0), construct=vals[nm].src[:100]))
 
 
+MODES = {'upart1': 0, 'upart2': 1, 'vpart1': 0, 'vpart2': 1}     # integrand -> 1 if its integral is multiplied by exp(-tau)
+SUOMOD = 'exactpack.solvers.suolson.timmes'
+
+
+def dispersion(model, res):
+    """Every eta-mode of the four Fourier integrands, exp(-lambda tau) sin(gamma x + theta), solves the
+    coupled system  eps u_tau = u_xx + v - u,  v_tau = u - v : eliminating the amplitudes gives the
+    dispersion relation  (gamma^2 + 1 - eps lambda)(1 - lambda) = 1  between the decay rate (read off the
+    exponential's argument, +1 for the two integrals that are multiplied by exp(-tau)) and the wavenumber
+    (the coefficient of posx inside the sine).  Guards against division by zero (max(tiny, X); min(eta, 1 - tiny)
+    for the integration variable eta in [0, 1]) are identities; any other clamp is not."""
+    import ast as _ast
+    from ..vg import Builder, Frame, walk
+    from ..nf import NFEval, NAN, Mono, Sum
+    from ..ratnf import NFSym
+    from ..radnf import RadNF
+    mod = model.modules[SUOMOD]
+    # the second integrals are multiplied by exp(-tau) where they are combined
+    for fn in ('usolution', 'vsolution'):
+        fi = model.get_func('%s:%s' % (SUOMOD, fn))
+        rets = [st for st in _ast.walk(fi.node) if isinstance(st, _ast.Return) and st.value is not None]
+        txt = _ast.unparse(rets[-1].value).replace(' ', '') if rets else ''
+        if 'exp(-tau)*sum2' not in txt or 'sum1' not in txt:
+            raise AnalysisError('%s no longer combines its integrals as ... sum1 ... exp(-tau) * sum2' % fn)
+    for name, extra in MODES.items():
+        fi = model.get_func('%s:%s' % (SUOMOD, name))
+        b = Builder(model)
+        b.frame = Frame(None, mod, {}, None)
+        gl = {}
+        for g in ('posx', 'tau', 'epsilon'):
+            gl[g] = b.mk('param', g)
+            b.gvars[(mod.name, g)] = gl[g]
+        eta = b.mk('param', 'eta')
+        out = b.run_function(fi, [eta])
+        ev = NFEval([])
+        # guards
+        for n in b.trace:
+            if n.kind == 'call' and n.val in ('builtins.max', 'builtins.min') and len(n.args) == 2:
+                vals = [ev.nf(a) for a in n.args]
+                for i in (0, 1):
+                    c, o = vals[i], n.args[1 - i]
+                    if n.val == 'builtins.max' and isinstance(c, Mono) and not c.f and 0 < c.coef < 1e-9:
+                        ev.memo[n.nid] = ev.nf(o)
+                    if n.val == 'builtins.min' and o is eta:
+                        # 1 - tiny
+                        cs = c.terms if isinstance(c, Sum) else [c]
+                        tot = sum(float(t.coef) for t in cs if isinstance(t, Mono) and not t.f) if all(isinstance(t, Mono) and not t.f for t in cs) else None
+                        if tot is not None and 1 - 1e-9 < tot < 1:
+                            ev.memo[n.nid] = ev.nf(o)
+        exps = [n for n in walk(out) if n.kind == 'call' and n.val in ('math.exp', 'numpy.exp')]
+        sins = [n for n in walk(out) if n.kind == 'call' and n.val in ('math.sin', 'numpy.sin')]
+        res.obligations += 1
+        res.evaluations += 1
+        res.nontrivial += 1
+        if len(exps) != 1 or len(sins) != 1:
+            raise AnalysisError('%s: expected one exponential and one sine factor (found %d / %d)' % (name, len(exps), len(sins)))
+        sy = NFSym(ev)
+        tau_s, x_s, eps_s = (sy.conv(ev.nf(gl[g])) for g in ('tau', 'posx', 'epsilon'))
+        ea = ev.nf(exps[0].args[0])
+        sa = ev.nf(sins[0].args[0])
+        ok = ea is not NAN and sa is not NAN and not isinstance(ea, (type(None),))
+        lam = gam = None
+        if ok:
+            try:
+                import sympy as sp
+                E, Sx = sy.conv(ea), sy.conv(sa)
+                lam = sp.together(-E / tau_s) + extra
+                gam = sp.diff(Sx, x_s)                  # linear in posx: the coefficient
+                ok = not lam.has(tau_s) and not gam.has(x_s) and sp.diff(Sx, x_s, 2) == 0
+                if ok:
+                    ok = RadNF(sy.units).is_zero((gam ** 2 + 1 - eps_s * lam) * (1 - lam) - 1)
+            except Exception:
+                ok = False
+        if ok:
+            res.discharged += 1
+            res.sample({'rule': 'C18.dispersion', 'integrand': name, 'decay_rate': str(lam)[:80], 'wavenumber': str(gam)[:80]})
+        else:
+            res.add(Finding(PROP, 'C18.dispersion', fi.module.relpath, fi.qualname, '%s: dispersion relation' % name,
+                            "%s: the eta-mode exp(-lambda tau) sin(gamma x + theta) of this integrand does not satisfy "
+                            "(gamma^2 + 1 - epsilon lambda)(1 - lambda) = 1 (lambda = %s, gamma = %s): the mode does not "
+                            "solve eps u_tau = u_xx + v - u, v_tau = u - v, so neither does the integral"
+                            % (name, str(lam)[:100], str(gam)[:100]), line=fi.node.lineno, construct='def %s' % name))
+
+
 def run(model, tier):
     res = Result(PROP)
     res.explanation = (
@@ -83,7 +167,9 @@ def run(model, tier):
         'opacity, specific-heat coefficient and boundary temperature. In addition the normal forms of xpos, tau, epsilon and '
         'the incident energy density must equal the documented conversion (sqrt3*opac*z, 4ac*opac*t/alpha, 4a/alpha, a*T_bc^4) '
         "over so_wave's own constants; the integral representations themselves "
-        '(PDE, Marshak condition) are numeric and not decided. History independence of the module globals '
+        '(PDE, Marshak condition) are numeric, except for one structural necessary condition: every eta-mode of the four Fourier '
+        'integrands satisfies the dispersion relation (gamma^2 + 1 - eps*lambda)(1 - lambda) = 1 of the coupled system (decay rate '
+        'from the exponential, wavenumber from the sine; radical normal form). History independence of the module globals '
         'posx/tau/epsilon/jwant is decided under C06.')
     res.rule_text = 'one constraint per operator site of so_wave; plus 3 dimensionless-argument and 2 output obligations'
     res.trusted_base = ['CPython ast', 'sympy FracField', 'signature table']
@@ -115,6 +201,7 @@ def run(model, tier):
     res.evaluations = S.constraints
     res.nontrivial = S.nontrivial + S.checked
     conversion(model, b, fi, res)
+    dispersion(model, res)
     res.analysed.append(FN)
     res.extra['inferred'] = {k: S.show(v) for k, v in ev.input_dims.items()}
     for node, what, a, b2 in S.samples[:10]:
